@@ -89,13 +89,15 @@ def lib_object(kind, model, route):
     from space_packet_parser.xtce import comparisons
     if route == "ctor":
         return {"cmp": crit.build_cmp, "cond": crit.build_cond, "bexpr": crit.build_bexpr}[kind](model)
+    # "xml0": the xs:boolean value false spelled "0"; "xmlo": defaults omitted
+    ropts = {"entity_ops": True, "false_as_0": route == "xml0", "omit_defaults": route == "xmlo"}
     if kind == "cmp":
-        el = crit.render_cmp(E, model, {"entity_ops": True})
+        el = crit.render_cmp(E, model, ropts)
         return comparisons.Comparison.from_xml(etree.fromstring(etree.tostring(el)))
     if kind == "cond":
-        el = crit.render_cond(E, model, {"entity_ops": True})
+        el = crit.render_cond(E, model, ropts)
         return comparisons.Condition.from_xml(etree.fromstring(etree.tostring(el)))
-    el = crit.render_bexpr(E, model, {"entity_ops": True})
+    el = crit.render_bexpr(E, model, ropts)
     return comparisons.BooleanExpression.from_xml(etree.fromstring(etree.tostring(el)))
 
 
@@ -197,8 +199,8 @@ def part_relations(ctx, index, of):
                     for kind, model in (
                             ("cmp", {"ref": "P", "op": op, "value": lit, "cal": cal}),
                             ("cond", {"left": "P", "lcal": cal, "op": op, "right": None, "rcal": False, "value": lit})):
-                        for route in ("ctor", "xml"):
-                            if kind == "cond" and route == "xml" and lit == "":
+                        for route in ("ctor", "xml", "xml0", "xmlo"):
+                            if kind == "cond" and route != "ctor" and lit == "":
                                 continue
                             ctx.count()
                             ctx.cls(f"relations: {kind}")
@@ -485,8 +487,9 @@ def gen_spec(draw):
         raw = draw(st.sampled_from([0, 1, 2]))
         return {"k": "bool", "v": bool(raw), "raw": raw}
     if k == "enum":
-        return {"k": "enum", "v": draw(st.sampled_from(["", "A", "B", "ON", "OFF"])), "raw": draw(st.integers(0, 3))}
-    txt = draw(st.sampled_from(["", "A", "B", "abc", "é"]))
+        return {"k": "enum", "v": draw(st.sampled_from(["", "A", "B", "ON", "OFF", " ON", "ON ", "ON  "])),
+                "raw": draw(st.integers(0, 3))}
+    txt = draw(st.sampled_from(["", "A", "B", "abc", "é", "A ", " A", "A  B", "ON  "]))
     return {"k": "str", "v": txt, "raw": txt.encode("utf-8").hex()}
 
 
@@ -497,7 +500,7 @@ def _literal_strategy(v):
         return st.one_of(st.just(str(v)), st.sampled_from([str(i) for i in INTS]), st.integers(-5, 5).map(str))
     if isinstance(v, float):
         return st.one_of(st.just(repr(v)), st.sampled_from(FLOATS), st.integers(-3, 3).map(str))
-    return st.one_of(st.just(v), st.sampled_from(["", "A", "B", "ON"]))
+    return st.one_of(st.just(v), st.sampled_from(["", "A", "B", "ON", " ON", "ON ", "ON  ", "A ", " A"]))
 
 
 @st.composite
@@ -541,7 +544,7 @@ def gen_group(draw, assign, kind, depth_left):
 def gen_case(draw):
     n = draw(st.integers(1, 4))
     assign = {NAMES[i]: draw(gen_spec()) for i in range(n)}
-    route = draw(st.sampled_from(["ctor", "xml"]))
+    route = draw(st.sampled_from(["ctor", "xml", "xml0", "xmlo"]))
     kind = draw(st.sampled_from(["cmp", "cond", "bexpr", "bexpr", "bexpr"]))
     if kind == "cmp":
         ref = draw(st.sampled_from(sorted(assign)))
@@ -581,7 +584,7 @@ def check_generated(ctx, case):
         ctx.count()
         return check_list(ctx, case)
     kind, model, assign, route = case["kind"], case["model"], case["assign"], case["route"]
-    if route == "xml" and _has_empty_value(kind, model):
+    if route != "ctor" and _has_empty_value(kind, model):
         route = "ctor"
     ctx.count()
     r = check_eval(kind, model, assign, route, case.get("current"))
@@ -634,7 +637,7 @@ def gen_seq_case(draw):
                  "subs": [{"t": "or" if t == "and" else "and", "conds": [cond() for _ in range(draw(st.integers(1, 2)))],
                            "subs": []} for _ in range(draw(st.integers(0, 1)))]}
     assigns = [{n: _num_spec(draw) for n in names} for _ in range(draw(st.integers(2, 5)))]
-    return {"kind": kind, "model": model, "assigns": assigns, "route": draw(st.sampled_from(["ctor", "xml"]))}
+    return {"kind": kind, "model": model, "assigns": assigns, "route": draw(st.sampled_from(["ctor", "xml", "xml0", "xmlo"]))}
 
 
 def check_sequence(ctx, case):
